@@ -40,18 +40,18 @@ Proof. intros (s & T & F) S. exists s. split; [rewrite S, T; reflexivity | exact
 
 (* P only looks at the type, the tag and the children *)
 Definition tt_only (P : token -> Prop) : Prop :=
-  forall t t', ttype t' = ttype t -> ttag t' = ttag t -> tchildren t' = tchildren t -> P t -> P t'.
+  forall t t', ttype t' = ttype t -> ttag t' = ttag t -> tchildren t' = tchildren t -> tattrs t' = tattrs t -> P t -> P t'.
 
 (* a pushed token: its type and tag are the ones given, whatever the modifier does to other fields *)
 Definition keeps_tt (f : token -> token) : Prop :=
-  forall t, ttype (f t) = ttype t /\ ttag (f t) = ttag t /\ tchildren (f t) = tchildren t.
+  forall t, ttype (f t) = ttype t /\ ttag (f t) = ttag t /\ tchildren (f t) = tchildren t /\ tattrs (f t) = tattrs t.
 
 Lemma grow_push P (TT : tt_only P) st ty tag nesting f :
   keeps_tt f -> P (new_token ty tag nesting) -> grow P st (bpush st ty tag nesting f).
 Proof.
   intros K H. eexists. split; [apply bpush_tokens|]. constructor; [|constructor].
-  destruct (K (set_level (set_block (new_token ty tag nesting) true) (if nesting <? 0 then b_level st - 1 else b_level st))) as (A & B & C).
-  eapply TT; [| | |exact H]; [rewrite A; reflexivity | rewrite B; reflexivity | rewrite C; reflexivity].
+  destruct (K (set_level (set_block (new_token ty tag nesting) true) (if nesting <? 0 then b_level st - 1 else b_level st))) as (A & B & C & D).
+  eapply TT; [| | | |exact H]; [rewrite A; reflexivity | rewrite B; reflexivity | rewrite C; reflexivity | rewrite D; reflexivity].
 Qed.
 
 (* a modifier that also sets the children: the predicate is checked on the pushed token itself *)
@@ -66,13 +66,14 @@ Ltac solve_keeps_tt :=
   repeat split; reflexivity.
 
 (* updates in place that keep type, tag and children of every token *)
-Definition same_tt (x y : token) : Prop := ttype y = ttype x /\ ttag y = ttag x /\ tchildren y = tchildren x.
+Definition same_tt (x y : token) : Prop :=
+  ttype y = ttype x /\ ttag y = ttag x /\ tchildren y = tchildren x /\ tattrs y = tattrs x.
 
 Lemma Forall_same_tt P (TT : tt_only P) : forall a b, Forall2 same_tt a b -> Forall P a -> Forall P b.
 Proof.
   induction a as [|x a IH]; intros b F H; inversion F; subst; [constructor|].
   inversion H; subst. constructor; [|apply IH; assumption].
-  match goal with S : same_tt x ?y |- _ => destruct S as (A & B & C); eapply TT; [exact A | exact B | exact C | assumption] end.
+  match goal with S : same_tt x ?y |- _ => destruct S as (A & B & C & D); eapply TT; [exact A | exact B | exact C | exact D | assumption] end.
 Qed.
 
 Lemma Forall2_same_tt_refl l : Forall2 same_tt l l.
@@ -81,7 +82,7 @@ Proof. induction l; constructor; [repeat split; reflexivity | assumption]. Qed.
 Lemma update_nth_same_tt (f : token -> token) (K : keeps_tt f) : forall n l, Forall2 same_tt l (update_nth_tok n f l).
 Proof.
   unfold update_nth_tok. induction n as [|n IH]; intros [|x l]; try constructor.
-  - destruct (K x) as (A & B & C); repeat split; assumption.
+  - destruct (K x) as (A & B & C & D); repeat split; assumption.
   - apply Forall2_same_tt_refl.
   - repeat split; reflexivity.
   - apply IH.
@@ -90,7 +91,7 @@ Qed.
 Lemma Forall2_same_tt_trans a : forall b c, Forall2 same_tt a b -> Forall2 same_tt b c -> Forall2 same_tt a c.
 Proof.
   induction a as [|x a IH]; intros b c H1 H2; inversion H1; subst; inversion H2; subst; constructor.
-  - match goal with A : same_tt x ?y, B : same_tt ?y ?z |- _ => destruct A as (? & ? & ?), B as (? & ? & ?); repeat split; congruence end.
+  - match goal with A : same_tt x ?y, B : same_tt ?y ?z |- _ => destruct A as (? & ? & ? & ?), B as (? & ? & ? & ?); repeat split; congruence end.
   - eapply IH; eassumption.
 Qed.
 
@@ -123,8 +124,10 @@ Qed.
 (* ---- the vocabulary of each rule ------------------------------------------------------------ *)
 
 (* (type, tag) as given, and no children yet: None, or the empty list of a fresh inline token *)
+Definition no_url_attrs (t : token) : Prop :=
+  forall k v, In (k, AStr v) (tattrs t) -> k = [104; 114; 101; 102] \/ k = [115; 114; 99] -> False.
 Definition is (ty tag : str) (t : token) : Prop :=
-  ttype t = ty /\ ttag t = tag /\ (tchildren t = None \/ tchildren t = Some []).
+  ttype t = ty /\ ttag t = tag /\ (tchildren t = None \/ tchildren t = Some []) /\ no_url_attrs t.
 
 Definition P_hr (t : token) : Prop := is [104; 114] [104; 114] t.
 Definition P_code (t : token) : Prop := is [99; 111; 100; 101; 95; 98; 108; 111; 99; 107] [99; 111; 100; 101] t.
@@ -161,9 +164,9 @@ Definition P_rule (name : str) (t : token) : Prop :=
 Definition P_all (t : token) : Prop := exists n, In n (c_rules cfg) /\ P_rule n t.
 
 Lemma is_tt ty tag : tt_only (is ty tag).
-Proof. intros t t' A B C (D & E & G). unfold is. rewrite A, B, C. repeat split; assumption. Qed.
+Proof. intros t t' A B C D0 (D & E & G & N). unfold is, no_url_attrs. rewrite A, B, C, D0. repeat split; assumption. Qed.
 
-Ltac tt_tac := intros t t' A B C H; unfold is in *; rewrite ?A, ?B, ?C; exact H.
+Ltac tt_tac := intros t t' A B C D H; unfold is, no_url_attrs in *; rewrite ?A, ?B, ?C, ?D; exact H.
 
 Lemma tt_hr : tt_only P_hr. Proof. unfold P_hr. tt_tac. Qed.
 Lemma tt_code : tt_only P_code. Proof. unfold P_code. tt_tac. Qed.
@@ -181,14 +184,14 @@ Proof.
   unfold P_rule.
   repeat match goal with |- tt_only (fun t => if ?c then _ else _) => destruct c end;
     first [apply tt_table | apply tt_code | apply tt_fence | apply tt_blockquote | apply tt_hr | apply tt_list
-          | apply tt_reference | apply tt_html | apply tt_heading | apply tt_paragraph | (intros ? ? ? ? ? []) ].
+          | apply tt_reference | apply tt_html | apply tt_heading | apply tt_paragraph | (intros ? ? ? ? ? ? []) ].
 Qed.
 
 Lemma tt_all : tt_only P_all.
-Proof. intros t t' A B C (n & I & H). exists n. split; [exact I | eapply tt_rule; eassumption]. Qed.
+Proof. intros t t' A B C D (n & I & H). exists n. split; [exact I | eapply tt_rule; eassumption]. Qed.
 
 Lemma tt_or P Q : tt_only P -> tt_only Q -> tt_only (fun t => P t \/ Q t).
-Proof. intros TP TQ t t' A B C [H|H]; [left; eapply TP | right; eapply TQ]; eassumption. Qed.
+Proof. intros TP TQ t t' A B C D [H|H]; [left; eapply TP | right; eapply TQ]; eassumption. Qed.
 
 (* contracts of the callbacks *)
 Definition rec_g (rec : rec_t) : Prop := forall s a b s', rec s a b = Ok s' -> grow P_all s s'.
@@ -201,7 +204,15 @@ Lemma grow_push' P (TT : tt_only P) st s ty tag nesting f :
 Proof. intros G K H. eapply grow_trans; [exact G | apply grow_push; assumption]. Qed.
 
 (* solve a vocabulary goal  P (new_token ty tag n)  that is a disjunction of [is ty tag] *)
-Ltac isgoal := unfold is; split; [reflexivity | split; [reflexivity | first [left; reflexivity | right; reflexivity]]].
+Ltac noattr :=
+  unfold no_url_attrs, map_tok, cell_attrs;
+  repeat match goal with |- context [if ?c then _ else _] => destruct c end;
+  let k := fresh "k" in let v := fresh "v" in let I := fresh "I" in let K := fresh "K" in
+  intros k v I K; cbn in I;
+  repeat (destruct I as [I|I]; [first [discriminate I | injection I as <- _; destruct K as [K|K]; discriminate K]|]); exact I.
+Ltac isgoal := unfold is, map_tok, cell_attrs;
+  repeat match goal with |- context [if ?c then _ else _] => destruct c end;
+  (split; [reflexivity | (split; [reflexivity | (split; [first [left; reflexivity | right; reflexivity] | noattr])])]).
 Ltac pgoal := solve [ isgoal | left; pgoal | right; pgoal ].
 
 Lemma grow_push'_d (P : token -> Prop) st s ty tag nesting f :
@@ -519,7 +530,8 @@ Proof.
         assert (E4 : grow QL st (bpush st3 ty' tag' (-1) fc))
           by (apply (grow_push' _ tt_QL); [| solve_keeps_tt | left; unfold P_list; pgoal];
               eapply grow_trans; [|eapply grow_same_l; [|exact LI]; reflexivity];
-              apply (grow_push' _ tt_QL); [apply grow_refl | solve_keeps_tt | left; unfold P_list; pgoal])
+              first [ apply (grow_push' _ tt_QL); [apply grow_refl | solve_keeps_tt | left; unfold P_list; pgoal]
+                    | apply grow_push'_d; [apply grow_refl | intros lvl; left; unfold P_list; pgoal] ])
       end
     end.
     destruct tight.
@@ -530,7 +542,8 @@ Proof.
         assert (E4 : grow QL st (bpush st3 ty' tag' (-1) fc))
           by (apply (grow_push' _ tt_QL); [| solve_keeps_tt | left; unfold P_list; pgoal];
               eapply grow_trans; [|eapply grow_same_l; [|exact LI]; reflexivity];
-              apply (grow_push' _ tt_QL); [apply grow_refl | solve_keeps_tt | left; unfold P_list; pgoal])
+              first [ apply (grow_push' _ tt_QL); [apply grow_refl | solve_keeps_tt | left; unfold P_list; pgoal]
+                    | apply grow_push'_d; [apply grow_refl | intros lvl; left; unfold P_list; pgoal] ])
       end
     end.
     destruct tight.
